@@ -276,20 +276,33 @@ func observeFeature(f *geojson.Feature, pr *problems) obsFeature {
 	return o
 }
 
-func options(bits int) []osmgeojson.Option {
-	return []osmgeojson.Option{
-		osmgeojson.NoID(bits&1 != 0), osmgeojson.NoMeta(bits&2 != 0),
-		osmgeojson.NoRelationMembership(bits&4 != 0), osmgeojson.IncludeInvalidPolygons(bits&8 != 0),
+// callRng drives how each call is made (which options are spelled out, in which order) and the
+// order of the calls of a scene; seeded in main, so a run is reproducible from --seed.
+var callRng = rand.New(rand.NewSource(1))
+
+// options: the option set [bits] the way callers write it.  explicit: all four options with
+// their boolean; otherwise only the options that are on (an omitted option must mean "off",
+// whatever earlier calls in the process asked for), in random order.
+func options(bits int, explicit bool) []osmgeojson.Option {
+	mk := []func(bool) osmgeojson.Option{osmgeojson.NoID, osmgeojson.NoMeta, osmgeojson.NoRelationMembership, osmgeojson.IncludeInvalidPolygons}
+	var out []osmgeojson.Option
+	for i, f := range mk {
+		on := bits&(1<<uint(i)) != 0
+		if on || explicit {
+			out = append(out, f(on))
+		}
 	}
+	callRng.Shuffle(len(out), func(i, j int) { out[i], out[j] = out[j], out[i] })
+	return out
 }
 
-func observe(o *osm.OSM, bits int, pr *problems) (fs []obsFeature) {
+func observe(o *osm.OSM, bits int, explicit bool, pr *problems) (fs []obsFeature) {
 	defer func() {
 		if r := recover(); r != nil {
 			pr.add("Convert panicked (optbits %d): %v", bits, r)
 		}
 	}()
-	fc, err := osmgeojson.Convert(o, options(bits)...)
+	fc, err := osmgeojson.Convert(o, options(bits, explicit)...)
 	if err != nil {
 		pr.add("Convert returned an error (optbits %d): %v", bits, err)
 		return nil
@@ -650,6 +663,7 @@ type run struct {
 }
 
 type scene struct {
+	order     [][]int  // the order in which the option sets were converted, per pass
 	in        *osm.OSM // pristine deep copy of what Convert was given (taken before anything ran)
 	areas     []bool   // Way.Polygon() of every way, evaluated on another copy
 	unchanged bool
@@ -746,7 +760,7 @@ func (s *scene) encode(class string) *wire.Case {
 			e.feature(f)
 		}
 	}
-	c.Desc = map[string]interface{}{"input": describeInput(o, s.areas), "input_unchanged": s.unchanged, "runs": s.runs,
+	c.Desc = map[string]interface{}{"input": describeInput(o, s.areas), "input_unchanged": s.unchanged, "runs": s.runs, "call_order": s.order,
 		"harness_problems": []string(s.problems)}
 	if inKnownClass(o) {
 		c.Known = knownClass
@@ -783,18 +797,39 @@ func runScene(o *osm.OSM, bitsList []int) *scene {
 		s.areas = append(s.areas, w.Polygon())
 	}
 	beforeText := canon(before)
+	// Every option set is converted twice, in two passes over the option sets in two different
+	// random orders, all in this one process and mostly passing only the options that are on:
+	// each call follows calls with other option sets (and the calls of earlier scenes), so state
+	// carried from one Convert call to the next shows up as an observation that differs from
+	// the per-call model (judgement 1) and from the other pass (determinism).
+	first := map[int][]obsFeature{}
+	second := map[int][]obsFeature{}
+	probs := map[int]*problems{}
+	for pass := 0; pass < 2; pass++ {
+		order := append([]int(nil), bitsList...)
+		callRng.Shuffle(len(order), func(i, j int) { order[i], order[j] = order[j], order[i] })
+		s.order = append(s.order, order)
+		for _, b := range order {
+			if probs[b] == nil {
+				probs[b] = &problems{}
+			}
+			fs := observe(o, b, callRng.Intn(4) == 0, probs[b])
+			if pass == 0 {
+				first[b] = fs
+			} else {
+				second[b] = fs
+			}
+		}
+	}
 	for _, b := range bitsList {
-		var pr problems
-		f1 := observe(o, b, &pr)
-		f2 := observe(o, b, &pr)
-		j1, _ := json.Marshal(f1)
-		j2, _ := json.Marshal(f2)
+		j1, _ := json.Marshal(first[b])
+		j2, _ := json.Marshal(second[b])
 		same := string(j1) == string(j2)
 		if !same {
-			pr.add("second conversion differs (optbits %d)", b)
+			probs[b].add("second conversion differs (optbits %d)", b)
 		}
-		s.problems = append(s.problems, pr...)
-		s.runs = append(s.runs, run{Bits: b, Same: same, Features: f1})
+		s.problems = append(s.problems, *probs[b]...)
+		s.runs = append(s.runs, run{Bits: b, Same: same, Features: first[b]})
 	}
 	s.unchanged = reflect.DeepEqual(before, o) && beforeText == canon(o)
 	if !s.unchanged {
@@ -808,6 +843,12 @@ func runScene(o *osm.OSM, bitsList []int) *scene {
 var interestingTags = [][2]string{{"building", "yes"}, {"highway", "residential"}, {"natural", "water"}, {"name", "A"},
 	{"name", "B"}, {"area", "yes"}, {"area", "no"}, {"landuse", "forest"}, {"barrier", "wall"}, {"amenity", "cafe"}, {"empty", ""},
 	{"route", "bus"}, {"type", "x"}, {"building", "no"}, {"waterway", "riverbank"}}
+
+// keys that look like the uninteresting ones but are not in the list: prefixes, suffixes, family
+// members, other case.  An element carrying only such tags is interesting.
+var nearMissTags = [][2]string{{"source:date", "2020"}, {"source:name", "n"}, {"tiger:reviewed", "no"}, {"tiger:cfcc", "A41"},
+	{"created_by2", "x"}, {"Source", "x"}, {"sourc", "x"}, {"source_ref2", "x"}, {"tiger", "x"}, {"history:old", "x"}, {"xsource", "y"},
+	{"attribution:url", "u"}, {"SOURCE", "s"}, {"source ", "s"}, {"tiger:tlid2", "1"}}
 var boringTags = [][2]string{{"source", "survey"}, {"created_by", "JOSM"}, {"source:ref", "1"}, {"tiger:tlid", "7"}, {"attribution", ""},
 	{"history", "h"}, {"source_ref", "r"}, {"tiger:county", "c"}, {"tiger:upload_uuid", "u"}}
 
@@ -831,7 +872,16 @@ func randTags(rng *rand.Rand) osm.Tags {
 	if rng.Intn(10) == 0 {
 		return manyTags(rng)
 	}
-	switch rng.Intn(6) {
+	switch rng.Intn(7) {
+	case 6: // near misses of the uninteresting keys, alone or next to a really boring one
+		for i := 1 + rng.Intn(2); i > 0; i-- {
+			x := nearMissTags[rng.Intn(len(nearMissTags))]
+			t = append(t, osm.Tag{Key: x[0], Value: x[1]})
+		}
+		if rng.Intn(2) == 0 {
+			x := boringTags[rng.Intn(len(boringTags))]
+			t = append(t, osm.Tag{Key: x[0], Value: x[1]})
+		}
 	case 0:
 		return nil
 	case 1: // boring only
@@ -1479,6 +1529,19 @@ func corpus() []*osm.OSM {
 			{Type: osm.TypeWay, Ref: 3, Role: "platform"}, {Type: osm.TypeWay, Ref: 1, Role: ""}, {Type: osm.TypeWay, Ref: 2, Role: "forward"},
 			{Type: osm.TypeWay, Ref: 4, Role: "platform_exit_only"}, {Type: osm.TypeNode, Ref: 5, Role: "stop"}}}},
 	})
+	// keys of the source:* / tiger:* families that are not in the uninteresting list count as
+	// interesting: way nodes with only such tags get points, member ways with only such tags stay
+	o = &osm.OSM{
+		Nodes: nodesAt([3]int{1, 1, 1}, [3]int{2, 2, 2}, [3]int{3, 3, 1}, [3]int{4, 4, 4}),
+		Ways:  osm.Ways{wayIDs(1, tagsOf("source:date", "2020"), 1, 2), wayIDs(2, tagsOf("tiger:reviewed", "no", "tiger:tlid", "7"), 2, 3), wayIDs(3, tagsOf("source", "s"), 3, 4)},
+		Relations: osm.Relations{{ID: 1, Tags: tagsOf("type", "route"), Members: osm.Members{
+			{Type: osm.TypeWay, Ref: 1}, {Type: osm.TypeWay, Ref: 2}, {Type: osm.TypeWay, Ref: 3}}}},
+	}
+	o.Nodes[0].Tags = tagsOf("tiger:reviewed", "no")
+	o.Nodes[1].Tags = tagsOf("source:name", "n", "source", "s")
+	o.Nodes[2].Tags = tagsOf("created_by", "x")
+	o.Nodes[3].Tags = tagsOf("Source", "x")
+	out = append(out, o)
 	// a route whose only member way has one resolvable node: feature with an empty MultiLineString
 	out = append(out, &osm.OSM{
 		Nodes:     nodesAt([3]int{1, 1, 1}),
@@ -1539,6 +1602,7 @@ func canaries() []*wire.Case {
 func main() {
 	a := wire.ParseArgs()
 	rng := wire.Rng(a.Seed)
+	callRng = rand.New(rand.NewSource(a.Seed*7919 + 17))
 	w := wire.NewWriter("C17", a.Seed, a.Tier)
 	w.Rule = "data sets: fixed corpus, then random scenes of 1-3 parts (L loose nodes/ways/other relations, R route chains cut, reversed, shuffled, with gaps and missing nodes/ways, M multipolygon/boundary relations over rectangle rings cut into 1-3 ways with inner rings, broken rings, missing/annotated member ways, own tags or none); each data set converted under 16 option sets twice. distinct = distinct token streams; trivial = no feature in the baseline."
 	n := 150
